@@ -8,7 +8,7 @@ echo "# seed -> check exit code (1 = detected), tier=$tier, $(date -u +%FT%TZ), 
 for d in seeded/C*/; do
   id=$(basename $d)
   prop=$(/venv/bin/python -c "import json;print(json.load(open('$d/meta.json'))['property'])")
-  git -C /repo apply $d/patch.diff || { echo "$id $prop PATCH-DOES-NOT-APPLY" >> $out; continue; }
+  git -C /repo apply /verif/$d/patch.diff || { echo "$id $prop PATCH-DOES-NOT-APPLY" >> $out; continue; }
   s=$(date +%s)
   ./check $prop --tier $tier > /tmp/matrix_$id.log 2>&1; rc=$?
   e=$(date +%s)
